@@ -28,10 +28,10 @@ BOUNDED_CASES = {
     "C04": [("raire", ("does not raise", "list of assertions", "empty list exactly", "holds on the CVRs", "every elimination order"))],
     "C15": [("raire", ("largest difficulty",))],
     "C07": [("consistent_sampling", None), ("assign_sample_nums", None)],
-    "C10": [("sampling_escalation", None)],
+    "C10": [("sampling_escalation", None), ("escalation_pvalues", None)],
     "C08": [("make_phantoms", None)],
     "C14": [("raire_readers", ("both readers", "load_contests_from_raire"))],
-    "C16": [("interleave_values", None), ("find_sample_size", None)],
+    "C16": [("interleave_values", None), ("find_sample_size", None), ("audit_find_sample_size", None)],
     "C17": [("manifests", None)],
     "C18": [("merge_cvrs", None), ("raire_readers", ("from_raire",))],
     "C19": [("dominion_read_cvrs", None)],
